@@ -78,3 +78,44 @@ def match_demand(prop, clause, prog):
                 continue
         return f
     return None
+
+
+def match_cache(prop, clause, par, hist, obs, verdict):
+    """Open finding matching a violation of the memory-cache family, or None.
+
+    S21 (check-then-act race of CacheDataset.__getitem__) is matched only when
+      * the failing clause is one the race can produce (two values handed out for
+        one example / the example computed twice),
+      * the history contains a pool step whose workers request every example
+        twice (`has_step`, >= `min_workers` workers),
+      * in such a step, while the cache was storing (lazy cache, no MemDrop yet),
+        an example the step requests more than once was computed twice, and
+      * the RELAXED TLA+ verdict (Cache.tla V_C10x(.., TRUE), field `s21` of the
+        trace verdict) is "ok": judged up to the race on exactly those examples
+        (both values of the racing step are ones computed in it, every later
+        access returns one and the same of them, nothing is computed again) the
+        property holds - every other example and every other clause as stated.
+    Anything else stays a VIOLATION."""
+    for f in common.load_findings()['findings']:
+        m = f.get('match')
+        if f['status'] != 'open' or not m or m.get('family') != 'cache':
+            continue
+        if f['property'] != prop or clause not in m.get('clauses', ()):
+            continue
+        if not par['lazy']:
+            continue
+        before, low, raced = obs['init'], False, False
+        for s, o in zip(hist, obs['steps']):
+            if s['op'] == 'drop' and par['keep'] == 'thr':
+                low = True
+            if s['op'] in m['has_step'] and s['w'] >= m['min_workers'] and not low \
+                    and o['exc'] == 'none':
+                # (every example is requested exactly twice by these steps)
+                raced = raced or any(c - b >= 2 for c, b in zip(o['calls'], before))
+            before = o['calls']
+        if not raced:
+            continue
+        if list(verdict.get('s21', ())[:1]) != [m['relaxed_verdict']]:
+            continue
+        return f
+    return None
